@@ -173,7 +173,10 @@ class Prog:
         return self.op("Point.SetExtendedCoordinates", r=preg, a=[X, Y, Z, T])
 
     def to_json(self):
-        return {"id": self.id, "note": self.note, "steps": self.steps}
+        d = {"id": self.id, "note": self.note, "steps": self.steps}
+        if getattr(self, "cold", False):
+            d["cold"] = True
+        return d
 
 
 def limbs_of(v):
